@@ -353,6 +353,11 @@ func (h *Harness) Execute(spec *RunSpec) (*RunReport, *Outcome, error) {
 				// O7: paths returned by this task's earlier calls must not change behind its back
 				for k := 0; k < s; k++ {
 					e := &res[t][k]
+					if e.again != nil && e.MutatedLater == "" {
+						if h := e.again(); h != e.againHash {
+							e.MutatedLater = fmt.Sprintf("the image returned by call %d (%s) was changed by the time call %d (%s) of the same task had returned", k, spec.Tasks[t].Steps[k].Op, s, spec.Tasks[t].Steps[s].Op)
+						}
+					}
 					if h := e.Rehash(); h != 0 && h != e.Hash && e.MutatedLater == "" {
 						if e.SameObject(arg) || e.SameObject(r.obj) {
 							// changed by a call that was given it as an argument, or returned again as the
